@@ -8,7 +8,7 @@ SFILE = "src/special/polynomial/mod.rs"
 
 def units(ctx):
     u = Unit("C18", "special", preludes=("real", "stdx"), cfg=cfg())
-    all_ops(u)
+    all_ops(u, mul_tolerance=True)
     # every inherent Polynomial method the constructors could reach, under its C13 contract
     u.spec(HSD_SPEC)
     add_basic(u, names=("new", "from_slice", "set_tolerance_placeholder", "purge_leading", "order", "get_coefficient", "set_coefficient", "purge_coefficient"))
@@ -247,9 +247,9 @@ def recurrence_ctor(u, name, cfn, p0, p1, lin, scaled=None):
     f = u.fn(SFILE, name)
     C = f"|a: nat, b: int| {cfn}(a, b)"
     f.req("tol@ > 0real", "n <= 0x3fff_ffff")
-    f.ens("res is Ok", f"is_family(res->Ok_0, n as nat, {C})")
+    f.ens("res is Ok", f"is_family(res->Ok_0, n as nat, {C})", "res->Ok_0.tolerance == tol")
     f.loop(1, iter="it", invariant=[
-        "n >= 2",
+        "n >= 2", f"{p1}.tolerance == tol", f"{p0}.tolerance == tol", f"{lin}.tolerance == tol",
         f"is_family({p1}, (it.index@ + 1) as nat, {C})", f"is_family({p0}, it.index@ as nat, {C})",
         f"{lin}.coefficients@.len() == 2 && {lin}.coefficients@[0]@ == 0real && {lin}.coefficients@[1]@ == 2real",
     ])
@@ -287,8 +287,8 @@ DECIDED = [
     "legendre(n), hermite(n), chebyshev(n), chebyshev_second(n) return a polynomial with exactly n+1 stored coefficients equal, coefficient by coefficient, to the classical three-term recurrences (A&S 22.7) for every n <= 2^30 and every positive tolerance",
     "the leading coefficient c(n,n) of each recurrence family is positive and all higher ones vanish (Verus lemmas): degree exactly n",
     "laguerre(n): coefficient k satisfies c_k k! k! = (-1)^k n(n-1)...(n-k+1), i.e. c_k = (-1)^k C(n,k)/k!; choose and factorial are verified against product specifications",
-    "legendre(n, tol) and laguerre(n, tol) return a polynomial whose zero tolerance is tol (what legendre_zeros / laguerre_zeros rely on, C14 unit zeros); not decided for hermite / chebyshev*, "
-    "whose result is a product and the product contract of multiply() deliberately says nothing about the tolerance",
+    "every constructor returns a polynomial whose zero tolerance is the requested tol (what the *_zeros functions rely on, C14 unit zeros); for hermite / chebyshev*, whose result is a product, through the helper clause "
+    "'multiply() returns the tolerance of one of its operands' (all code paths incl. the FFT tail, whose idft stub takes the tolerance as an argument)",
     "every polynomial product used by the constructors goes through the exact linear-factor path of multiply(), re-verified in this unit",
 ]
 NOT_DECIDED = ["rounding (exact reals); the complex instantiation; the *_zeros functions (see C14)",
